@@ -68,6 +68,10 @@ structure GD (s : Store) (root lim : Nat) (st : GSt) : Prop where
   pok : PathOK s root st.path
   minv : ∀ x ∈ st.map, ∃ k, k < lim ∧ ReachIn s root k x
   linv : ∀ e ∈ st.log, ∃ u v, e = Ev.missing v ∧ Reach s root u ∧ Dangling s u v
+  /-- every finished claim was entered on a path so short that each of its references could be
+  followed below the limit (the depth test precedes the memo test: it also applies to a
+  reference to a claim that was walked before) -/
+  einv : ∀ x ∈ st.fin, ∃ k, ReachIn s root k x ∧ ∀ v, Edge s x v → k + 1 < lim
 
 /-- What a call / a loop establishes, by outcome. -/
 structure GDPost (s : Store) (root lim : Nat) (st : GSt) (r : Out × GSt) : Prop where
@@ -76,10 +80,71 @@ structure GDPost (s : Store) (root lim : Nat) (st : GSt) (r : Out × GSt) : Prop
   cyc : r.1 = .cyclic → ∃ v, Reach s root v ∧ OnCycle s v
 
 theorem GD.pre {s : Store} {root lim : Nat} {st : GSt} (h : GD s root lim st) (u v : Nat) :
-    GD s root lim (gPre st u v) := ⟨h.pok, h.minv, h.linv⟩
+    GD s root lim (gPre st u v) := ⟨h.pok, h.minv, h.linv, h.einv⟩
 
 theorem GD.skip {s : Store} {root lim : Nat} {st : GSt} (h : GD s root lim st) :
-    GD s root lim (gSkip st) := ⟨h.pok, h.minv, h.linv⟩
+    GD s root lim (gSkip st) := ⟨h.pok, h.minv, h.linv, h.einv⟩
+
+/-- **the depth test comes first** — an arrival with `lim` claims on the path is the depth error,
+whether or not the claim is already in the memo map. -/
+theorem gcrm_arrival_too_deep (lim : Nat) (s : Store) (stop : Bool) (n u : Nat) (st : GSt)
+    (h : lim ≤ st.path.length) : gcrm lim s stop (n + 1) u st = (.tooDeep, st) := by
+  rw [gcrm_succ]; simp [h]
+
+theorem gcrm_ok_entry_depth (lim : Nat) (s : Store) (stop : Bool) (n u : Nat) (st : GSt)
+    (h : (gcrm lim s stop n u st).1 = .ok) : st.path.length < lim := by
+  cases n with
+  | zero => simp [gcrm_zero] at h
+  | succ n =>
+    rcases Nat.lt_or_ge st.path.length lim with hl | hl
+    · exact hl
+    · rw [gcrm_arrival_too_deep lim s stop n u st hl] at h; cases h
+
+/-- a loop that completes followed every reference to an existing claim below the limit -/
+theorem gLoop_ok_arrivals (s : Store) (stop : Bool) (lim u : Nat) (rec : Nat → GSt → Out × GSt)
+    (hpath : ∀ v st, (rec v st).1 = .ok → (rec v st).2.path = st.path)
+    (hdep : ∀ v st, (rec v st).1 = .ok → st.path.length < lim) :
+    ∀ (ings : List Ing) (st : GSt), (gLoop rec s stop u ings st).1 = .ok →
+      ∀ i ∈ ings, ∀ v, i.target = some v → v < s.length → st.path.length < lim := by
+  intro ings
+  induction ings with
+  | nil => intro st _ i hi; cases hi
+  | cons i is ih =>
+    intro st
+    rw [gLoop_cons]
+    cases ht : i.target with
+    | none =>
+      simp only
+      intro hok j hj w hw hwl
+      rcases List.mem_cons.1 hj with rfl | hj
+      · rw [ht] at hw; cases hw
+      · exact ih (gSkip st) hok j hj w hw hwl
+    | some v =>
+      simp only
+      by_cases hv : v < s.length
+      · simp only [hv, if_true]
+        by_cases hc : v ∈ st.path
+        · simp [hc]
+        · simp only [hc, if_false]
+          by_cases hok : (rec v (gPre st u v)).1 = .ok
+          · simp only [hok, if_true]
+            intro hl j hj w hw hwl
+            rcases List.mem_cons.1 hj with rfl | hj
+            · exact hdep v (gPre st u v) hok
+            · have := ih _ hl j hj w hw hwl
+              rw [hpath _ _ hok] at this
+              exact this
+          · simp only [hok, if_false]
+            intro hl; exact hl.elim
+      · simp only [hv, if_false]
+        cases stop with
+        | true => simp
+        | false =>
+          simp only [Bool.false_eq_true, if_false]
+          intro hl j hj w hw hwl
+          rcases List.mem_cons.1 hj with rfl | hj
+          · rw [ht] at hw; cases hw; exact absurd hwl hv
+          · exact ih (gMiss st v) hl j hj w hw hwl
 
 theorem gLoop_depth (s : Store) (stop : Bool) (root lim u : Nat) (c : Claim) (p0 : List Nat)
     (hc : s[u]? = some c) (rec : Nat → GSt → Out × GSt)
@@ -140,7 +205,7 @@ theorem gLoop_depth (s : Store) (stop : Bool) (root lim u : Nat) (c : Claim) (p0
           have hd : Dangling s u v :=
             ⟨c, hc, i, hsub i (List.mem_cons_self ..), ht, Nat.le_of_not_lt hv⟩
           have hm : GD s root lim (gMiss st v) := by
-            refine ⟨h.pok, h.minv, ?_⟩
+            refine ⟨h.pok, h.minv, ?_, h.einv⟩
             intro e he
             rcases List.mem_cons.1 he with rfl | he
             · exact ⟨u, v, rfl, hru, hd⟩
@@ -177,7 +242,7 @@ theorem gcrm_depth (s : Store) (stop : Bool) (root lim : Nat) :
         | some c =>
           simp only
           have hpush : GD s root lim (gPush st u) := by
-            refine ⟨⟨hent, h.pok⟩, ?_, h.linv⟩
+            refine ⟨⟨hent, h.pok⟩, ?_, h.linv, h.einv⟩
             intro x hx
             rcases List.mem_cons.1 hx with rfl | hx
             · exact ⟨st.path.length, Nat.lt_of_not_le hl, hin⟩
@@ -188,15 +253,25 @@ theorem gcrm_depth (s : Store) (stop : Bool) (root lim : Nat) :
           · simp only [hok, if_true]
             refine ⟨fun _ => ?_, (fun h => by cases h), (fun h => by cases h)⟩
             obtain ⟨l1, l2⟩ := hloop.ok hok
-            refine ⟨⟨?_, l1.minv, l1.linv⟩, ?_⟩
+            refine ⟨⟨?_, l1.minv, l1.linv, ?_⟩, ?_⟩
             · show PathOK s root (gLoop (gcrm lim s stop n) s stop u c.ings (gPush st u)).2.path.tail
               rw [l2]; exact h.pok
+            · intro x hx
+              rcases List.mem_cons.1 hx with rfl | hx
+              · refine ⟨st.path.length, hin, ?_⟩
+                rintro v ⟨c', hc', i, hi, ht, hv⟩
+                rw [hs] at hc'; cases hc'
+                have := gLoop_ok_arrivals s stop lim x (gcrm lim s stop n)
+                  (gcrm_ok_path s stop lim n) (gcrm_ok_entry_depth lim s stop n)
+                  _ (gPush st x) hok i hi v ht hv
+                simpa [gPush] using this
+              · exact l1.einv x hx
             · show (gLoop (gcrm lim s stop n) s stop u c.ings (gPush st u)).2.path.tail = st.path
               rw [l2]; rfl
           · simp only [hok, if_false]
             exact ⟨fun h => absurd h hok, hloop.deep, hloop.cyc⟩
 
 theorem GD.init (s : Store) (root lim : Nat) : GD s root lim {} :=
-  ⟨trivial, fun _ h => (by cases h), fun _ h => (by cases h)⟩
+  ⟨trivial, fun _ h => (by cases h), fun _ h => (by cases h), fun _ h => (by cases h)⟩
 
 end C2pa.C19
